@@ -38,7 +38,7 @@ RULE = ("case = (real directory chain of depth <=4 in a temporary directory, eac
         "directory), two or three loader objects interleaved, `.start` read in between, find and load mixed, the two "
         "collection names asked in a row, candidates created / removed between the calls; loaders are created in a "
         "directory other than those they are used in; after every load the project invoke.yaml is read through Config; "
-        "a history is non-trivial when a loader is used again from another working directory.  Module BODIES with import-time behaviour (every layout of depth <=2 over none/module/package/both x body assignments: a chain of nested projects each loading the same-named collection of the enclosing directory through a FilesystemLoader, loading itself once more, loading another collection from above / from a side directory, rebinding or deleting sys.modules[its name], changing cwd with and without restoring it): the module returned is still the one defined by the nearest candidate, and every re-entrant load obeys the same rule")
+        "a history is non-trivial when a loader is used again from another working directory.  Module BODIES with import-time behaviour (every layout of depth <=2 over none/module/package/both x body assignments: a chain of nested projects each loading the same-named collection of the enclosing directory through a FilesystemLoader, loading itself once more, loading another collection from above / from a side directory, rebinding or deleting sys.modules[its name], changing cwd with and without restoring it): the module returned is still the one defined by the nearest candidate, and every re-entrant load obeys the same rule.  Directory names made of pattern characters (proj[1], a*b, x?, [ab], {a,b}, **, [!x]y, w(1)+.$) as base, middle or deepest directory of the chain, with a decoy directory the pattern would match (holding candidates) next to each: names are literal")
 TRUSTED = ["Lean 4.33 kernel", "axioms propext/Classical.choice/Quot.sound only",
            "harness/props/c20.py correspondence + canonicalisation",
            "CPython os.path.abspath / os.listdir / os.path.exists / importlib spec loading (modelled: absPath, FS.ls, FS.ex)",
@@ -110,6 +110,37 @@ def del_candidate(d, name):
     if os.path.exists(os.path.join(d, name + ".py")):
         os.remove(os.path.join(d, name + ".py"))
     shutil.rmtree(os.path.join(d, name), ignore_errors=True)
+
+
+# ---- directory names made of characters that mean something to glob / fnmatch / regex style matching (they mean
+# nothing to the file system); next to each such directory stands a DECOY directory whose name the pattern would match,
+# holding a candidate that is NOT at or above any start inside the tree's chain
+GLOB_DIRNAMES = ["proj[1]", "a*b", "x?", "[ab]", "{a,b}", "**", "[!x]y", "w(1)+.$"]
+GLOB_DECOYS = {"proj[1]": "proj1", "a*b": "aXXb", "x?": "xy", "[ab]": "a", "{a,b}": "a", "**": "zz", "[!x]y": "ay", "w(1)+.$": "w11x"}
+
+
+def make_decoys(tree):
+    for d in tree.dirs:
+        twin = GLOB_DECOYS.get(os.path.basename(d))
+        if twin:
+            dd = os.path.join(os.path.dirname(d), twin)
+            os.makedirs(dd, exist_ok=True)
+            write(os.path.join(dd, tree.name + ".py"), "MARK = 'decoy:module'\nSIB = None\n")
+            os.makedirs(os.path.join(dd, tree.name), exist_ok=True)
+            write(os.path.join(dd, tree.name, "__init__.py"), "MARK = 'decoy:package'\nSIB = None\n")
+
+
+def glob_layouts(rng, per_name):
+    """chains in which one directory (the base, a middle one or the deepest) carries a pattern-like name"""
+    out = []
+    k3 = ["none", "module", "package"]
+    for g in GLOB_DIRNAMES:
+        shapes = [[g, "d1"], ["base", g], ["base", g, "d2"], ["base", "d1", g]]
+        for dirnames in shapes:
+            allk = [list(k) for k in itertools.product(k3, repeat=len(dirnames))]
+            for kinds in (allk if len(allk) <= per_name else rng.sample(allk, per_name)):
+                out.append((kinds, dirnames))
+    return out
 
 
 # ---- module BODIES with import-time behaviour (the text appended to a candidate's source; MARK and the sibling import
@@ -1014,6 +1045,8 @@ def replay(case):
     try:
         if case.get("bodies") is not None:
             apply_bodies(tree, case["bodies"])
+        if case.get("decoys"):
+            make_decoys(tree)
         rng = random.Random(case.get("sub", 0))
         startarg, cwd = start_args(tree, case["start"], case["form"], rng)
         r = run_loader(startarg, case["name"], cwd)
@@ -1108,6 +1141,39 @@ def run(ctx):
                         out.fail(case, why)
                     eff = startarg if startarg else cwd
                     lines.append(model_line(name, cwd, eff, lay))
+                    pending.append((case, canon_impl(r)))
+        finally:
+            tree.close()
+    # directories with pattern-like names on the way up (and decoys the pattern would match next to them)
+    for li, (kinds, dirnames) in enumerate(glob_layouts(rng, ctx.n(9, 27))):
+        name = NAMES[li % 2]
+        tree = Tree(kinds, name, dirnames)
+        try:
+            make_decoys(tree)
+            lay = tree.layout()
+            for s in range(len(kinds)):
+                for form in ["abs", "none", rng.choice(["trailing", "rel", "dotrel", "relup", "absup"])]:
+                    sub = rng.randrange(1 << 30)
+                    startarg, cwd = start_args(tree, s, form, random.Random(sub))
+                    counter += 1
+                    case = {"kind": "tree", "kinds": kinds, "name": name, "start": s, "form": form, "sub": sub,
+                            "program": counter % (3 * prog_every) == 0, "dirnames": dirnames, "decoys": True}
+                    r = run_loader(startarg, name, cwd)
+                    why = oracle_loader(tree, s, r)
+                    out.case(case, any(k != "none" for k in kinds))
+                    out.hist["pattern_like_dirnames"] += 1
+                    strict = expected_levels(kinds, s)[0]
+                    gl = [i for i, d in enumerate(dirnames) if d in GLOB_DECOYS]
+                    if strict is not None and any(i <= s for i in gl):
+                        out.hist["pattern_like_dirnames:candidate_found_through_or_in_such_a_directory"
+                                 if any(strict <= i for i in gl) else "pattern_like_dirnames:start_below_candidate_above"] += 1
+                    if why is None and case["program"]:
+                        rp = run_program(startarg, name, cwd)
+                        why = oracle_program(tree, s, rp)
+                        out.hist["program_runs"] += 1
+                    if why:
+                        out.fail(case, why)
+                    lines.append(model_line(name, cwd, startarg if startarg else cwd, lay))
                     pending.append((case, canon_impl(r)))
         finally:
             tree.close()
